@@ -607,6 +607,11 @@ def _simple_functor(sh):
     def f(x):
         if x is None:
             return None
+        if not isinstance(x, (tuple, list)):
+            # a piece of a data item (the item was a list and has been taken apart): f answers, the oracle sees a result that
+            # is f(x) of no input
+            sh.log("item_torn")
+            return ("torn", repr(x)[:40])
         call, idx, dur = x[:3]
         sh.log("item", call=call, idx=int(idx))
         if dur:
